@@ -35,7 +35,7 @@ type Input struct {
 type Step struct {
 	Op    string `json:"op"` // "roundtrip" | "baddecode"
 	In    Input  `json:"in"`
-	Dst   int    `json:"dst"`           // 0 nil, 1 len0 small cap, 2 cap exact, 3 cap large dirty, 4 sub-slice of previous output
+	Dst   int    `json:"dst"`           // 0 nil, 1 len0 small cap, 2 cap exact, 3 cap large dirty, 4 sub-slice of previous output, 5/6 a little larger, 7 one byte short, 8 two bytes short, 9 one byte more
 	Bad   string `json:"bad,omitempty"` // "random" | "truncate" | "flip"
 	BadAt int    `json:"badat,omitempty"`
 }
@@ -127,7 +127,7 @@ func genCase(t *rapid.T) Case {
 	c.Codec = codecNames[rapid.IntRange(0, len(codecNames)-1).Draw(t, "codec")]
 	n := rapid.IntRange(1, 7).Draw(t, "nsteps")
 	for i := 0; i < n; i++ {
-		s := Step{Op: "roundtrip", In: genInput(t), Dst: rapid.IntRange(0, 6).Draw(t, "dst")}
+		s := Step{Op: "roundtrip", In: genInput(t), Dst: rapid.IntRange(0, 9).Draw(t, "dst")}
 		// LZ4's Decode never returns on invalid input (it doubles its buffer on every
 		// error): no failed-decode outcome exists to put in a history, see DESIGN C20.
 		if c.Codec != "lz4" && c.Codec != "uncompressed" && rapid.IntRange(0, 3).Draw(t, "bad") == 0 {
@@ -153,6 +153,10 @@ func pickDst(kind, need int, prev []byte) []byte {
 		return make([]byte, 0, need+1+need/300)
 	case 6:
 		return make([]byte, 0, need+17)
+	case 7, 8: // the output fills the buffer exactly before its last byte(s)
+		return make([]byte, 0, max(need-(kind-6), 0))
+	case 9:
+		return make([]byte, 0, need+1)
 	case 1:
 		return make([]byte, 0, 3)
 	case 2:
